@@ -19,10 +19,10 @@ def cfg_text(spec, consts, invariants=(), extra=""):
 
 
 BASE = dict(Keys="{1, 2}", MaxTs="4", MaxLevel="2", MinL0L0="2", NVK="1", Kinds='{"val", "del"}',
-            L0L0KeepsTombstones="TRUE", MaxId="7")
+            L0L0KeepsTombstones="TRUE", BaseSkip='"none"', MaxId="7")
 
 
-def model_check(c, name, consts, invariants=("ReadStable", "Retention", "Structure", "NoInvention"), timeout=1500,
+def model_check(c, name, consts, invariants=("ReadStable", "Retention", "Structure", "NoInvention", "AgeOrdered"), timeout=1500,
                 workers=None):
     d = vlib.stage_specs(["lsm"])
     open(os.path.join(d, "MC.cfg"), "w").write(cfg_text("Spec", consts, invariants))
@@ -50,9 +50,10 @@ def generate(c, name, consts, seed, simulate=None, depth=None, timeout=900, work
         pre = t["pre"]
         fam = t["fam"]
         if fam == "L0ToBase":
-            # the production picker's base level for model-sized data is the last level, and
-            # only when every level above it is empty does the specification agree on it
-            if t["arg"] != maxlevel or any(pre["lv"][i] for i in range(maxlevel - 1)):
+            # the production base level for model-sized data is the first non-empty level, or the
+            # last level when all are empty (levelTargets); the specification allows more
+            first = next((i + 1 for i in range(maxlevel - 1) if pre["lv"][i]), maxlevel)
+            if t["arg"] != first:
                 continue
         if fam == "LevelDown":
             first = next((i + 1 for i in range(maxlevel - 1) if pre["lv"][i]), None)
@@ -150,11 +151,95 @@ def replay(c, prop, cases, label, inmem=False, timeout=1500):
     return results
 
 
+def model_must_fail(c, name, consts, invariant, timeout=900):
+    """Sensitivity of the specification: with the switch set to the unrepaired behaviour TLC has to
+    find the violation (otherwise the model no longer represents the hazard and the check is void)."""
+    d = vlib.stage_specs(["lsm"])
+    open(os.path.join(d, "MC.cfg"), "w").write(cfg_text("Spec", consts, (invariant,)))
+    res = vlib.run_tlc(d, "LSM_MC", "MC.cfg", timeout=timeout, workers=None)
+    c.cov["tlc_runs"].append({"config": "LSM " + name, "mode": "exhaustive (expected counterexample)",
+                              "violated": res.violation, "distinct_states": res.distinct, "wall_s": round(res.wall, 1)})
+    if res.violation != invariant:
+        raise Inconclusive("LSM %s: expected a counterexample to %s, got %r" % (name, invariant, res.violation or res.ok))
+
+
+def scenario_baseflip(c, prop):
+    """A real history (writes, flushes and only compactions the production picker lists with a score
+    >= 1) in which the last level shrinks and the size-derived base level returns below a non-empty
+    level; then a delete is flushed and L0 is compacted. Reads must not change."""
+    binp = vlib.go_build("cmd/lsmprobe")
+    d = vlib.scratch("probe-")
+    env = vlib.goenv()
+    env["TMPDIR"] = d
+    rc, out, err, _ = vlib.run([binp], timeout=600, env=env)
+    if rc != 0 or not out.strip():
+        raise Inconclusive("lsmprobe failed: %s" % err[-1500:])
+    r = json.loads(out.splitlines()[-1])
+    c.cov["engines"].append({"scenario": "base level returns below a non-empty level", "eligible": r["eligible"],
+                             "read_before": r["before"], "read_after": r["after"]})
+    c.cov["traces_validated_against_impl"] += 1
+    if not r["eligible"]:
+        raise Inconclusive("lsmprobe: a compaction of the scenario was not listed by the picker: %s" % r["log"])
+    if not r["ok"]:
+        rc2, out2, _, _ = vlib.run([binp], timeout=600, env=env)
+        if rc2 == 0 and out2.strip() and not json.loads(out2.splitlines()[-1])["ok"]:
+            c.violation("lsm:L0ToBase baseflip.resurrected (base level below a non-empty level, marker dropped at the bottom)",
+                        r["log"], {"tool": "lsmprobe", "scenario": "baseflip"})
+
+
+def size_walks(c, prop, walks, steps=120):
+    """Random walks on the real DB with real value sizes (the base level moves up and down with the size of
+    the last level), flushes and only compactions listed by pickCompactLevels; after every flush and
+    compaction the invariants of LSM.tla are evaluated on the real state: ReadStable against the ideal
+    store, Structure (validate) - and AgeOrdered, which is recorded but is not a read deviation."""
+    binp = vlib.go_build("cmd/lsmprobe")
+    d = vlib.scratch("walk-")
+    env = vlib.goenv()
+    env["TMPDIR"] = d
+    nproc = min(vlib.NCPU, max(1, walks // 3))
+    per = (walks + nproc - 1) // nproc
+    t0 = time.time()
+    cmds = [[binp, "-random", str(per), "-seed", str(c.seed * 1000 + i), "-steps", str(steps)] for i in range(nproc)]
+    procs = [subprocess.Popen(cmd, stdout=subprocess.PIPE, stderr=subprocess.PIPE, env=env, text=True) for cmd in cmds]
+    tot = {"walks": 0, "steps": 0, "reads": 0, "age_order_inversions": 0, "base_moves": 0, "compactions": {}}
+    for cmd, p in zip(cmds, procs):
+        try:
+            out, err = p.communicate(timeout=3000)
+        except subprocess.TimeoutExpired:
+            for q in procs:
+                q.kill()
+            raise Inconclusive("lsmprobe -random timed out")
+        if p.returncode != 0 or not out.strip():
+            raise Inconclusive("lsmprobe -random failed: %s" % err[-1500:])
+        r = json.loads(out.splitlines()[-1])
+        for k in ("walks", "steps", "reads", "age_order_inversions", "base_moves"):
+            tot[k] += r[k]
+        for k, v in r["compactions"].items():
+            tot["compactions"][k] = tot["compactions"].get(k, 0) + v
+        for v in (r["violations"] or [])[:2]:
+            rc, out2, _, _ = vlib.run(cmd, timeout=3000, env=env)
+            again = json.loads(out2.splitlines()[-1])["violations"] or [] if rc == 0 and out2.strip() else []
+            if not any(a["walk"] == v["walk"] and a["sig"] == v["sig"] for a in again):
+                log("walk deviation did not reproduce:", v["sig"])
+                continue
+            c.violation("lsm:" + v["sig"], v["log"][-40:], {"tool": "lsmprobe", "cmd": cmd[1:], "walk": v["walk"]})
+        if r.get("age_order_inversion_sample"):
+            tot["age_order_inversion_sample"] = r["age_order_inversion_sample"][-12:]
+    tot["wall_s"] = round(time.time() - t0, 1)
+    c.cov["engines"].append(dict(tot, engine="real-size walks, LSM.tla invariants evaluated on the real state"))
+    c.cov["traces_validated_against_impl"] += tot["walks"]
+    if tot["age_order_inversions"]:
+        print("NOTE property=%s the real tree left the age order LSM.tla proves (%d times); no read changed"
+              % (prop, tot["age_order_inversions"]))
+    if tot["walks"] == 0 or sum(tot["compactions"].values()) == 0:
+        raise Inconclusive("real-size walks ran no compaction")
+
+
 def model_check_install(c, quick):
     """LSMInstall.tla: the two-step installation of a compaction result against a concurrent read."""
     d = vlib.stage_specs(["lsm"])
     consts = dict(Keys="{1, 2}", MaxTs=("2" if quick else "3"), MaxLevel="2", MinL0L0="2", NVK="1", Kinds='{"val", "del"}',
-                  L0L0KeepsTombstones="TRUE", MaxId=("4" if quick else "5"), InstallOrder='"code"')
+                  L0L0KeepsTombstones="TRUE", BaseSkip='"none"', MaxId=("4" if quick else "5"), InstallOrder='"code"')
     open(os.path.join(d, "I.cfg"), "w").write(cfg_text("ISpec", consts, ("ReadCorrect",)))
     res = vlib.run_tlc(d, "LSMInstall_MC", "I.cfg", timeout=2400, workers=None)
     c.add_tlc("LSMInstall (replace, then delete; read level by level)", res)
